@@ -21,7 +21,7 @@ STUBS = ["elexsolver QuantileRegressionSolver.fit for intercept-only designs: th
          "scipy bootstrap / S3: as in the pipeline harness"]
 ASSUMES = P.ASSUMES_PIPELINE + ["the weighted median is unique (no prefix of the sorted units has exactly half of the weight)"]
 OUTSIDE = P.OUTSIDE_PIPELINE + ["more than 5 reporting / 2 nonreporting units"]
-BOUNDS = {"quick": "4-5 reporting units (symbolic counts), 1-2 nonreporting, profiles generic/dominant/extreme/balanced, estimands turnout and dem+turnout, "
+BOUNDS = {"quick": "4-5 reporting units (symbolic counts), 1-2 nonreporting, profiles generic/dominant/extreme/balanced, estimands turnout and dem+turnout; a blocklisted / zero-baseline nonreporting unit placed before the modelled nonreporting units, "
                    "NP and GA (the point prediction is shared)", "thorough": "adds 6 reporting units, profile equal"}
 OPTS = {"quick": dict(case_timeout_s=900, solver_timeout_ms=30000), "thorough": dict(case_timeout_s=3000, solver_timeout_ms=60000)}
 
@@ -36,6 +36,14 @@ def cases(tier):
                 out.append(dict(name="np_%s_r%d_n%d_%s" % (prof, nrep, nnon, "+".join(ests)), pi="nonparametric", alphas=[0.5],
                                 estimands=ests, units=P.standard_units(nrep, nnon, profile=prof), cut_calibration=True,
                                 weight=nrep * 3 + len(ests)))
+    # a nonreporting unit that is not modelled (blocklisted / zero baseline) sits BEFORE the modelled nonreporting units in the frames:
+    # every modelled unit must still get its own prediction
+    for kind_ in ("block", "zero"):
+        us = P.standard_units(4, 2)
+        extra = P.U("x0", kind_, county="c1", pev=40, **({"base": 900} if kind_ == "block" else {}))
+        us = us[:4] + [extra] + us[4:]
+        out.append(dict(name="np_generic_r4_%s_before_n2" % kind_, pi="nonparametric", alphas=[0.5], estimands=["turnout"], units=us,
+                        cut_calibration=True, weight=15))
     out.append(dict(name="ga_generic_r7_n1", pi="gaussian", alphas=[0.7], estimands=["turnout"],
                     units=P.standard_units(7, 1), cut_calibration=True, weight=20))
     return out
